@@ -128,10 +128,11 @@ pub struct Built {
 pub fn build(c: &Cfg, tag: &str) -> Option<Built> {
     let mk_mint = |name: &str, dec: u8, fee: bool| if fee { MintSpec::t22(name, dec, Some((50, 1_000_000))) } else { MintSpec::spl(name, dec) };
     let mut acfg = BankCfg::default();
-    acfg.asset_weight_init = I80F48::from_num(0.5);
+    // (initial weights follow the maintenance ones where the menu would otherwise make the configuration invalid)
+    acfg.asset_weight_init = I80F48::from_num(0.5f64.min(c.asset_w_maint));
     acfg.asset_weight_maint = I80F48::from_num(c.asset_w_maint);
     let mut lcfg = BankCfg::default();
-    lcfg.liability_weight_init = I80F48::from_num(1.5);
+    lcfg.liability_weight_init = I80F48::from_num(1.5f64.max(c.liab_w_maint));
     lcfg.liability_weight_maint = I80F48::from_num(c.liab_w_maint);
     let ccfg = BankCfg::default();
     // asset worth ~ $4 per whole token at 0 decimals would be coarse: price per whole token chosen per decimals
